@@ -842,6 +842,25 @@ func Worker(t *testing.T, c *Check) {
 			if classes[res.Viol.Sig] {
 				continue
 			}
+			// a violation counts only if re-executing its recorded tape reproduces it:
+			// anything else is a determinism gap of the simulator, reported as trouble
+			// (exit 2 when frequent), never as a verdict about the property
+			if os.Getenv("VERIF_NO_CONFIRM") == "" {
+				sc := &Scenario{Property: c.ID, Seed: res.Seed, Tier: tier, Params: res.Params, Tape: res.Tape}
+				progress.Add(1)
+				if r2 := Exec(t, c, res.Seed, tier, sc); r2.Viol == nil || r2.Viol.Sig != res.Viol.Sig {
+					msg := res.Viol.Msg
+					if len(msg) > 400 {
+						msg = msg[:400]
+					}
+					rep.Troubles = append(rep.Troubles, fmt.Sprintf("seed=%d: %s was reported once but re-executing the recorded tape did not reproduce it (simulator nondeterminism, not a verdict): %s", seed, res.Viol.Sig, msg))
+					if len(rep.Troubles) > 5 {
+						rep.Aborted = "too many simulator troubles"
+						break
+					}
+					continue
+				}
+			}
 			classes[res.Viol.Sig] = true
 			// persist the un-minimised scenario first
 			p := writeScenario(c, res, tier, false, res.Draws)
